@@ -61,7 +61,7 @@ loads = [[] for _ in range(K)]
 for prop in sorted(todo, key=lambda p: -len(todo[p])):
     min(loads, key=lambda l: sum(len(todo[p]) for p in l)).append(prop)
 def phase2(k):
-    tdir = f"/var/tmp/w/kt{k}"
+    tdir = f"/var/tmp/verif-kt{k}"
     if not os.path.isdir(tdir):
         os.makedirs(tdir, exist_ok=True)
         for crate in ("kani-target-tera", "kani-target-tera-contrib"):
